@@ -681,6 +681,44 @@ def r2_capabilities(ctx) -> None:
                 r.violation("C16.R2e", q, short(c, 140),
                             "this call accepts vars_allowed_paths but the caller's restriction is not handed on: the callee falls back to None, "
                             "i.e. vars files anywhere on disk become executable below this point", loc)
+    # second half: below the document loaders nobody may call a restriction-accepting function without a restriction at all
+    # (a constructor hook or helper that has no vars_allowed_paths of its own and builds items from document data)
+    loaders = [q_ for q_ in ("sigma.processing.pipeline.ProcessingPipeline.from_dict", "sigma.processing.pipeline.ProcessingPipeline.from_yaml",
+                             "sigma.processing.resolver.ProcessingPipelineResolver.resolve_pipeline") if q_ in prog.funcs]
+    if len(loaders) < 2:
+        raise AnalysisError("C16.R2e: the pipeline loaders were not found")
+    below = ctx.cg.reachable(loaders)
+    n_below = 0
+    for q in sorted(x for x in below if x in prog.funcs):
+        fi = prog.funcs[q]
+        if "vars_allowed_paths" in fi.params() or q in loaders:
+            continue
+        for site in ctx.cg.sites.get(q, []):
+            c = site.node
+            if not isinstance(c, ast.Call):
+                continue
+            acc = [prog.funcs[t] for t in site.callees if t in prog.funcs and "vars_allowed_paths" in prog.funcs[t].params()]
+            if not acc:
+                continue
+            n_below += 1
+            loc = f"{fi.module.relpath}:{c.lineno}"
+            if any(kw.arg == "vars_allowed_paths" and not (isinstance(kw.value, ast.Constant) and kw.value.value is None) for kw in c.keywords) or any(kw.arg is None for kw in c.keywords):
+                r.ok("C16.R2e", q, f"{short(c, 90)} passes a restriction", loc)
+                continue
+            if all("source_path" in a_.params() for a_ in acc) and any(kw.arg == "source_path" and not (isinstance(kw.value, ast.Constant) and kw.value.value is None) for kw in c.keywords):
+                r.ok("C16.R2e", q, f"{short(c, 90)} names the file the text came from: the loader derives the restriction from it (decided for from_yaml above)", loc)
+                continue
+            # a builder that is handed a registry of classes none of which carries a path restriction has nothing to restrict
+            regs = [ctx.cg.registry_of(fi.module, a) for a in list(c.args) + [kw.value for kw in c.keywords]]
+            regs = [x for x in regs if x]
+            if regs and not any("vars_allowed_paths" in prog.dataclass_fields(cq_) for reg in regs for cl in reg for cq_ in prog.subclasses(cl) if cq_ in prog.classes):
+                r.ok("C16.R2e", q, f"{short(c, 90)}: no class of the registry handed over ({sum(len(x) for x in regs)} classes) carries vars_allowed_paths", loc)
+                continue
+            path = ctx.cg.path_to(below, q)
+            r.violation("C16.R2e", q, short(c, 140),
+                        f"reachable from the pipeline loaders ({' -> '.join(x.rsplit('.', 2)[-2] + '.' + x.rsplit('.', 1)[-1] for x in path[-4:])}) and builds "
+                        f"{acc[0].qual.rsplit('.', 2)[-2]} objects from data without any vars_allowed_paths: the items below fall back to None, i.e. no path restriction", loc)
+    r.analysed["C16.unrestricted_builder_calls_below_loaders"] = n_below
     # the restriction is derived from the file location unconditionally: whether vars execution is allowed is decided much
     # later (argument *or* environment), so the derivation must not depend on the opt-in argument
     fy = prog.func("sigma.processing.pipeline.ProcessingPipeline.from_yaml")
